@@ -133,6 +133,17 @@ def thorough_extras(prop, cfg, infra):
     return out
 
 
+def _unit_worker(un):
+    try:
+        return ("ok", verus_unit.run_unit(un))
+    except (AnchorLost, Infra) as e:
+        return ("infra", str(e))
+    except subprocess.TimeoutExpired:
+        return ("infra", "verus timed out")
+    except Exception as e:   # a crash of the extractor is an infrastructure matter, never an alarm
+        return ("infra", "extractor / runner crashed: %s" % (traceback.format_exc()[-400:],))
+
+
 def main():
     ap = argparse.ArgumentParser()
     ap.add_argument("prop")
@@ -157,13 +168,19 @@ def main():
 
     infra, unit_results = [], []
     # ------------------------------------------------------------------ Verus units
-    for un in cfg.get("units", []):
-        try:
-            unit_results.append(verus_unit.run_unit(un))
-        except (AnchorLost, Infra) as e:
-            infra.append("unit %s: %s" % (un, e))
-        except subprocess.TimeoutExpired:
-            infra.append("unit %s: verus timed out" % un)
+    units = cfg.get("units", [])
+    if len(units) > 1 and os.environ.get("VERIF_SERIAL") is None:
+        # the units of a property are independent (one generated file each): verify them side by side
+        import concurrent.futures
+        with concurrent.futures.ProcessPoolExecutor(max_workers=min(8, len(units))) as ex:
+            outs = list(ex.map(_unit_worker, units))
+    else:
+        outs = [_unit_worker(un) for un in units]
+    for un, (kind, val) in zip(units, outs):
+        if kind == "ok":
+            unit_results.append(val)
+        else:
+            infra.append("unit %s: %s" % (un, val))
     # ------------------------------------------------------------------ Kani units
     kani_res = None
     if cfg.get("kani"):
